@@ -43,7 +43,9 @@ LEVEL_NOTE = ("The SGR model (vf/sgr.py) accepts only ESC[...m with the paramete
 TECHNIQUE = "runtime monitoring: SGR terminal-model oracle, exhaustive over single colour values, sampled over combinations"
 
 EFFECT_NAMES = ["bold", "faint", "underline", "blink", "crossed"]
-TEXTS = ["x", "", "[", "m", "0;1m", "[31m", "38:5:1", "a b", "é中", "line1\nline2", ";", "\t", "0", "abc" * 5]
+# (control characters other than ESC are characters of the text like any other)
+TEXTS = ["x", "", "[", "m", "0;1m", "[31m", "38:5:1", "a b", "é中", "line1\nline2", ";", "\t", "0", "abc" * 5,
+         "\x0fdef", "\x0e", "\x07\x08"]
 INVALID = [-1, 256, 1000, -256, (0, 0, 6), (-1, 0, 0), (6, 6, 6), (1, 2), (1, 2, 3, 4), (), "g24", "g-1", "gx",
            "g", "g99", "PINK", "red", "Red", "", "GRAY", 1.5, 300.0, "255", "#ff0000",
            # misspelled grays and names
@@ -52,7 +54,9 @@ INVALID = [-1, 256, 1000, -256, (0, 0, 6), (-1, 0, 0), (6, 6, 6), (1, 2), (1, 2,
            # numerically equal to valid codes, but not ints (must not be let through by a cache keyed on ==)
            1.0, 0.0, 7.0, 200.0, 255.0, Fraction(3), Decimal(5), (1.0, 2, 3), (0, 0, 5.0),
            # what a configuration FILE uses for 'the terminal's default' is not a colour value of this interface
-           "-", " -", "--", "default", "none", "None"]
+           "-", " -", "--", "default", "none", "None",
+           # names that read like replacement fields of a message template
+           "{}", "{0}", "g{}", "{names}", "RED{x}", "{!r}", "{color}", "%s", "%(color)s", "{", "}"]
 
 
 class VfCode(int):
